@@ -61,7 +61,7 @@ type fieldSpec struct {
 }
 
 var supported = []string{"bytes", "string", "secret", "binval", "binptr", "json-struct", "json-map", "json-int"}
-var unsupported = []string{"int", "strings", "strptr", "strmap", "bool", "empty-tag", "empty-tag-json"}
+var unsupported = []string{"int", "strings", "strptr", "strmap", "bool", "empty-tag", "empty-tag-json", "arr8", "arrptr", "any", "float", "rune-slice"}
 var untagged = []string{"u-int", "u-string", "u-bytes", "u-intptr", "u-secret"}
 
 func typeOf(kind string) reflect.Type {
@@ -90,6 +90,16 @@ func typeOf(kind string) reflect.Type {
 		return reflect.TypeOf(map[string]string(nil))
 	case "bool":
 		return reflect.TypeOf(false)
+	case "arr8": // things a []byte can be converted to are not therefore supported
+		return reflect.TypeOf([8]byte{})
+	case "arrptr":
+		return reflect.TypeOf((*[8]byte)(nil))
+	case "any":
+		return reflect.TypeOf((*any)(nil)).Elem()
+	case "float":
+		return reflect.TypeOf(1.5)
+	case "rune-slice":
+		return reflect.TypeOf([]rune(nil))
 	case "u-intptr":
 		return reflect.TypeOf((*int)(nil))
 	}
@@ -167,8 +177,9 @@ func TestC20(t *testing.T) {
 	}
 	if r.Only < 0 {
 		taggedEmbedded(r)
+		severalStructs(r)
 	}
-	r.Require("tagged_embedded_fields", "populated_structs", "rejected_shapes", "rejected_arguments", "failing_field_cases", "bytes_fields_mutated", "secret_fields_followed_poll", "shared_secret_fields", "embedded_structs", "untagged_fields_checked", "second_applies")
+	r.Require("stores_over_several_structs", "tagged_embedded_fields", "populated_structs", "rejected_shapes", "rejected_arguments", "failing_field_cases", "bytes_fields_mutated", "secret_fields_followed_poll", "shared_secret_fields", "embedded_structs", "untagged_fields_checked", "second_applies")
 	r.Rule("struct types generated at run time: 1-8 fields in random order from {[]byte, string, setec.Secret, value/pointer BinaryUnmarshaler, ',json' struct/map/int} + unsupported {int, []string, *string, map[string]string, bool, empty tag name} + untagged fields of 5 kinds with sentinel contents, optionally one embedded predeclared struct; prefixes {'', a, a/b, dev/prog}; several fields may name the same secret; scripted failing fields (bad JSON, UnmarshalBinary error); via StoreConfig.Structs and via ParseFields+Apply. Distinct = (entry point, sorted set of field kinds, has failing field, prefix)")
 }
 
@@ -803,6 +814,100 @@ func taggedEmbedded(r *evid.Run) {
 				if bad := c.check(v); bad != "" {
 					fail("field-value-wrong", "after construction the struct holds "+bad)
 				}
+			}
+		}
+	}
+}
+
+type msText struct {
+	X string `setec:"x"`
+	Y []byte `setec:"y"`
+}
+type msJSON struct {
+	J JS `setec:"j,json"`
+}
+type msBin struct {
+	B BinVal `setec:"b"`
+	Z string `setec:"z"`
+}
+
+// severalStructs: a store configured with several structs: a failing field in ANY of them is reported, and
+// the fields of the others are filled all the same.
+func severalStructs(r *evid.Run) {
+	rng := r.Rand(2020)
+	for c := 0; c < 120; c++ {
+		n := 2 + rng.IntN(3)
+		failAt := rng.IntN(n+1) - 1 // -1: nobody fails
+		svc := fakesvc.New()
+		svc.Set("unrelated", 1, []byte("unrelated"))
+		var structs []setec.Struct
+		var vals []any
+		var kinds []string
+		for i := 0; i < n; i++ {
+			prefix := fmt.Sprintf("s%d", i)
+			kind := []string{"text", "json", "bin"}[rng.IntN(3)]
+			if i == failAt && kind == "text" {
+				kind = []string{"json", "bin"}[rng.IntN(2)]
+			}
+			kinds = append(kinds, kind)
+			var v any
+			switch kind {
+			case "text":
+				v = &msText{}
+				svc.Set(prefix+"/x", 1, []byte("x-of-"+prefix))
+				svc.Set(prefix+"/y", 1, []byte("y-of-"+prefix))
+			case "json":
+				v = &msJSON{}
+				doc := fmt.Sprintf(`{"a":%d,"b":"%s"}`, i, prefix)
+				if i == failAt {
+					doc = `{"a":"not a number"}`
+				}
+				svc.Set(prefix+"/j", 1, []byte(doc))
+			case "bin":
+				v = &msBin{}
+				b := "b-of-" + prefix
+				if i == failAt {
+					b = "FAIL " + prefix
+				}
+				svc.Set(prefix+"/b", 1, []byte(b))
+				svc.Set(prefix+"/z", 1, []byte("z-of-"+prefix))
+			}
+			vals = append(vals, v)
+			structs = append(structs, setec.Struct{Value: v, Prefix: prefix})
+		}
+		r.Eval(1)
+		r.Count("stores_over_several_structs", 1)
+		r.Distinct(fmt.Sprintf("several structs n=%d failing=%d", n, failAt))
+		st, err := setec.NewStore(context.Background(), setec.StoreConfig{Client: svc, Structs: structs, Secrets: []string{"unrelated"}, PollInterval: -1, Logf: func(string, ...any) {}})
+		if st != nil {
+			st.Close()
+		}
+		desc := fmt.Sprintf("case %d: %d structs %v, failing field in struct #%d", c, n, kinds, failAt)
+		if failAt >= 0 && err == nil {
+			r.Violation("failure-unreported", -1, desc+": NewStore returned no error", nil)
+			continue
+		}
+		if failAt < 0 && err != nil {
+			r.Violation("spurious-error", -1, desc+": "+err.Error(), nil)
+			continue
+		}
+		if failAt >= 0 {
+			continue // what the other structs hold when construction fails is not claimed
+		}
+		for i, v := range vals {
+			prefix := fmt.Sprintf("s%d", i)
+			ok := true
+			switch w := v.(type) {
+			case *msText:
+				ok = w.X == "x-of-"+prefix && string(w.Y) == "y-of-"+prefix
+			case *msJSON:
+				ok = w.J == JS{A: i, B: prefix}
+			case *msBin:
+				ok = string(w.B.Got) == "b-of-"+prefix && w.Z == "z-of-"+prefix
+			}
+			if !ok {
+				r.Violation("field-value-wrong", -1, fmt.Sprintf("%s: struct #%d holds %+v", desc, i, v), nil)
+				break
 			}
 		}
 	}
